@@ -3,7 +3,7 @@
    Ints are Z constrained by in64; float results are opaque (no floating-point reasoning here). *)
 (* Floats is deliberately not imported here: the primitive float operations then print fully qualified
    (PrimFloat.add ...) in Print Assumptions, which lists kernel primitives under "Axioms:". *)
-From Miller Require Import Base.Bytes C06.Model C07.Model C07.Proofs C07.ProofsBits C07.ProofsInt C07.ProofsPow C07.ProofsMod C07.ProofsPanic C07.ProofsWit C07.ProofsMixed.
+From Miller Require Import Base.Bytes C06.Model C07.Model C07.Proofs C07.ProofsBits C07.ProofsInt C07.ProofsPow C07.ProofsMod C07.ProofsPanic C07.ProofsWit C07.ProofsMixed C07.ProofsConv.
 Open Scope Z_scope.
 
 (* ---- + and - : exact when the result fits ---- *)
@@ -340,6 +340,40 @@ Theorem C07_mixed_arithmetic_is_ieee_on_converted_operands :
 Proof. exact mixed_arith_ieee. Qed.
 Print Assumptions C07_mixed_arithmetic_is_ieee_on_converted_operands.
 
+(* ---- the conversion itself: float64(int64 n) of the model (i2f n = f_of_bits (float_of_int n), float_of_int in exact integer
+   arithmetic) is the correctly rounded value for ALL int64 n, stated over Z (no real-number library): below 2^53 nothing is
+   rounded away (the 53-bit significand is |n| 2^(52-e), e = log2 |n|); from 2^53 to 2^63 the significand q = rne_q |n| s at the unit
+   2^s of |n|'s binade is within half a unit of |n|, an exact half only when q is even (round to nearest, ties to even); enc_q q s is
+   the bit pattern of q 2^s (lemma enc_q_decodes in ProofsConv.v: f_of_bits of it is SF2Prim of that significand and exponent) ---- *)
+Theorem C07_int_to_float_correctly_rounded :
+  forall n, in64 n = true -> 2 ^ 53 <= Z.abs n ->
+  let s := Z.log2 (Z.abs n) - 52 in
+  let q := rne_q (Z.abs n) s in
+  float_of_int n = (if n <? 0 then two63 else 0) + enc_q q s
+  /\ 1 <= s <= 11 /\ 2 ^ 52 <= q <= 2 ^ 53
+  /\ 2 * Z.abs (Z.abs n - q * 2 ^ s) <= 2 ^ s
+  /\ (2 * Z.abs (Z.abs n - q * 2 ^ s) = 2 ^ s -> Z.even q = true).
+Proof. exact float_of_int_rne. Qed.
+Print Assumptions C07_int_to_float_correctly_rounded.
+
+Theorem C07_int_to_float_exact_below_2p53 :
+  forall n, n <> 0 -> Z.abs n < 2 ^ 53 ->
+  let e := Z.log2 (Z.abs n) in
+  float_of_int n = (if n <? 0 then two63 else 0) + ((e + 1023) * 2 ^ 52 + (Z.abs n * 2 ^ (52 - e) - 2 ^ 52))
+  /\ 0 <= e <= 52 /\ 2 ^ 52 <= Z.abs n * 2 ^ (52 - e) < 2 ^ 53.
+Proof. exact float_of_int_exact_small. Qed.
+Print Assumptions C07_int_to_float_exact_below_2p53.
+
+(* mixed int/float min and max: the float math.Min / math.Max of the converted operands, whatever the values -- when an int and a
+   float are equal the result is still the float (max(1, 1.0) = 1.0; lemma mixed_min_max_examples).  f_min (f_min f f) is what the
+   variadic fold computes for a float first argument *)
+Theorem C07_mixed_min_max_is_float :
+  forall a f y,
+  (eval_bin OMin (NInt a) (NFloat f) = RFloat (f_min (i2f a) f) /\ eval_bin OMax (NInt a) (NFloat f) = RFloat (f_max (i2f a) f))
+  /\ (eval_bin OMin (NFloat f) y = RFloat (f_min (f_min f f) (to_f y)) /\ eval_bin OMax (NFloat f) y = RFloat (f_max (f_max f f) (to_f y))).
+Proof. exact (fun a f y => conj (mixed_min_max_int_float a f) (mixed_min_max_float_any f y)). Qed.
+Print Assumptions C07_mixed_min_max_is_float.
+
 Theorem C07_mixed_result_is_never_int :
   forall op x y n, has_float x y -> eval_bin op x y <> RInt n.
 Proof. exact mixed_never_int. Qed.
@@ -408,3 +442,10 @@ Example C07_nonvacuous :
   /\ eval_tern TMexp (NInt 3) (NInt 200) (NInt 1000007) = RInt (3 ^ 200 mod 1000007)
   /\ (forall q, 7 <> 2 * q).
 Proof. vm_compute. repeat split; try reflexivity; try discriminate; try (intros q; destruct q as [|p|p]; try destruct p; discriminate). Qed.
+
+Example C07_nonvacuous_round2 :
+  in64 (3 ^ 39) = true /\ in64 (2 ^ 63) = false /\ in64 ((-2) ^ 63) = true /\ in64 7 = true /\ (0 <? 7) = true
+  /\ in64 (roundm_spec 7 2) = true /\ roundm_spec 7 2 = 8 /\ roundm_spec (-7) 2 = -8 /\ in64 (roundm_spec 9223372036854775807 2) = false
+  /\ (2 ^ 53 <=? Z.abs 9007199254740993) = true /\ in64 9007199254740993 = true /\ (Z.abs (-5) <? 2 ^ 53) = true
+  /\ eval_tern TMmul (NInt 9223372036854775807) (NInt 9223372036854775807) (NInt 9223372036854775806) = RInt 1.
+Proof. vm_compute. repeat split. Qed.
